@@ -223,12 +223,16 @@ lemma(
         0: lambda asm, message, label, c_r, ipid, pid, count, cuts, k, old, ghost: [
             1 <= k and k <= count,
             wf(asm),
-            implies(k < count, in_progress(asm, label, c_r, ipid, pid, count, message[: cut_at(cuts, message, count, k - 1)], k) and ghost.n == old.ghost.n),
+            # (split into scalar facts and the payload fact: one clause was a 25 s query)
+            implies(k < count, asm.transaction_label == label and asm.c_r == c_r and asm.ipid == ipid and asm.pid == pid and asm.number_of_packets == count and asm.packets_received == k),
+            implies(k < count, ghost.n == old.ghost.n),
+            implies(k < count, asm.payload == message[: cut_at(cuts, message, count, k - 1)]),
             implies(k >= count, clean(asm) and delivered(old, ghost, label, c_r, ipid, pid, message)),
         ]
     },
     decreases={0: lambda count, k: count - k},
     uses=['bumble.avctp:MessageAssembler.on_pdu'],
+    timeout_ms=120000,  # inv-preserved#2 needs 12-25 s of z3 on a quiet machine
 )
 
 
